@@ -180,6 +180,44 @@ func (x *Exec) lookupLocal(name string, env *SpecEnv) (TV, bool) {
 			}
 		}
 	}
+	if best == nil && fr.contract != nil {
+		// renaming-robust fallbacks declared by the contract:
+		// (1) a parameter named positionally in the func directive denotes that parameter whatever it is called now
+		sig := fr.fi.Obj.Type().(*types.Signature)
+		_, ps, _ := x.paramObjs(fr.fi.Decl.Type, fr.fi.Decl.Recv)
+		for i, pn := range fr.contract.ParamNames {
+			if pn == name && i < len(ps) && ps[i] != nil && i < sig.Params().Len() {
+				if v, ok := env.st.vars[ps[i]]; ok {
+					return TV{V: v, T: ps[i].Type()}, true
+				}
+			}
+		}
+		// (2) `local <name> <type>`: the unique local of that type
+		for _, ld := range fr.contract.Locals {
+			if ld.Name != name {
+				continue
+			}
+			want := x.resolveGoType(ld.Type)
+			if want == nil {
+				continue
+			}
+			var cands []types.Object
+			for o := range env.st.vars {
+				if o.Pos() >= lo && o.Pos() <= hi && types.Identical(o.Type(), want) {
+					cands = append(cands, o)
+				}
+			}
+			same := len(cands) > 0
+			for _, c := range cands[1:] {
+				if !vSame(env.st.vars[c], env.st.vars[cands[0]]) {
+					same = false
+				}
+			}
+			if same {
+				return TV{V: env.st.vars[cands[0]], T: cands[0].Type()}, true
+			}
+		}
+	}
 	if best == nil {
 		return TV{}, false
 	}
